@@ -1,3 +1,4 @@
+import IpcModel.RecvSig
 import IpcModel.Interleave.Bridge
 import IpcModel.Interleave.Att
 /-!
@@ -70,5 +71,21 @@ found truncated (`cur`); the source does the same: inside the reassembly loop th
 blocking `recv` on the dedicated socket, with no poll, time-out or non-blocking flag — whatever receive call the program
 used (regenerated from `recv`). -/
 theorem C02_shape_followups_blocking : Gen.shape_followupsBlocking = true := by decide
+
+/-- **C02_signal_transparent** — a signal handled by the receiving thread while it reassembles a multi-fragment message (any number of `recv()` calls on
+the dedicated socket answered `EINTR`, at any positions) changes nothing: for the code as it is now (`shape_followupRetriesEintr`,
+regenerated) the reassembly ends exactly as the uninterrupted one — the message is delivered once, whole.  Without the retry one
+interruption loses the message (`RecvSig.loop_noretry_err`, D20). -/
+theorem C02_signal_transparent {α : Type} (sys total : Nat) (buf : List α) (answers : List (RecvSig.Ans α)) (eof : Bool) :
+    Gen.shape_followupRetriesEintr = true ∧
+    RecvSig.loop Gen.shape_followupRetriesEintr sys total buf answers eof
+      = RecvSig.embed (Frag.recvFollow sys total buf (RecvSig.strip answers) eof) := by
+  refine ⟨RecvSig.code_retries, ?_⟩
+  rw [RecvSig.code_retries]; exact RecvSig.loop_retry sys total buf answers eof
+
+/-- non-vacuity / sensitivity: a 3-packet message, the second and third read interrupted (twice in a row) -/
+example : RecvSig.loop true 4608 20 [1, 2] [.eintr, .data [3, 4, 5], .eintr, .eintr, .data (List.replicate 15 9)] false
+    = .ok ([1, 2, 3, 4, 5] ++ List.replicate 15 9) := by decide
+example : RecvSig.loop false 4608 20 [1, 2] [.eintr, .data [3, 4, 5]] false = .err := by decide
 
 end C02
